@@ -208,7 +208,8 @@ def gen_op(rng, k, recipe, iterative, allow, p_each):
         # inplace: the caller overwrites the very tensors the model holds (a pre-allocated buffer) and passes them again
         kinds = ["same", "targets_only", "inputs_only", "newshape", "inplace", "inplace"]
         if fam == "grid":
-            kinds = ["targets_only", "inplace"]
+            # (same: new inputs of the grid's shape that are not the grid - the kernel then is the plain base kernel)
+            kinds = ["targets_only", "inplace", "same", "inputs_only"]
         return {"op": k, "kind": rng.choice(kinds), "seed": rng.randrange(1 << 30), "n": rng.randint(3, 8), "strict": rng.random() < 0.5}
     if k == "load_state_dict":
         return {"op": k, "src": rng.choice(["rand", "snap"]), "seed": rng.randrange(1 << 30), "which": rng.randrange(4), "scope": rng.choice(["all", "all", "likelihood", "kernel", "one"]), "pick": rng.randrange(1 << 16), "grid_shift": rng.random() < 0.4}
